@@ -655,6 +655,263 @@ impl PathIssueManager {
     }
 }
 
+/// Verification hooks: a per-pair path set that is stepped by hand with an injected clock instead
+/// of by its background task, plus read access to the state the manager keeps for it.
+#[cfg(feature = "verif-hooks")]
+pub mod verif_hooks {
+    use std::{
+        sync::{Arc, Mutex},
+        time::{Duration, SystemTime},
+    };
+
+    use scc::HashIndex;
+    use sciparse::{
+        identifier::isd_asn::IsdAsn, path::ScionPath, payload::scmp::model::ScmpErrorMessage,
+    };
+    use tokio::sync::broadcast::error::TryRecvError;
+
+    use super::{
+        IssueKind, MultiPathManager, MultiPathManagerConfig, MultiPathManagerConfigError,
+        MultiPathManagerInner, PathIssueManager, PathSet, PathSetHandle, PathSetTask, SendError,
+    };
+    use crate::path::{PathStrategy, fetcher::traits::PathFetcher, policy::PathPolicy};
+
+    /// One cached path with the score the manager currently ranks it by.
+    #[derive(Debug, Clone)]
+    pub struct CachedPathInfo {
+        /// The cached path.
+        pub path: ScionPath,
+        /// Total score (higher is preferred).
+        pub score: f32,
+        /// Reliability component of the score.
+        pub reliability: f32,
+    }
+
+    /// The configuration values a monitor needs to know the bounds it checks.
+    #[derive(Debug, Clone, Copy)]
+    pub struct ConfigValues {
+        /// Maximum number of cached paths per pair.
+        pub max_cached_paths_per_pair: usize,
+        /// Interval between lookups.
+        pub refetch_interval: Duration,
+        /// Minimum delay between lookups.
+        pub min_refetch_delay: Duration,
+        /// Remaining lifetime below which a path counts as near expiry.
+        pub min_expiry_threshold: Duration,
+        /// Idle period after which a path set is dropped.
+        pub max_idle_period: Duration,
+        /// Backoff ceiling after failed lookups (without jitter).
+        pub backoff_max: Duration,
+        /// Backoff jitter.
+        pub backoff_jitter: Duration,
+        /// Configured size of the issue memory.
+        pub issue_cache_size: usize,
+        /// Window in which a repeated issue is ignored.
+        pub issue_deduplication_window: Duration,
+        /// Score gap that triggers a switch of the active path.
+        pub path_swap_score_threshold: f32,
+    }
+
+    /// Reads the configuration.
+    pub fn config_values(c: &MultiPathManagerConfig) -> ConfigValues {
+        ConfigValues {
+            max_cached_paths_per_pair: c.max_cached_paths_per_pair,
+            refetch_interval: c.refetch_interval,
+            min_refetch_delay: c.min_refetch_delay,
+            min_expiry_threshold: c.min_expiry_threshold,
+            max_idle_period: c.max_idle_period,
+            backoff_max: Duration::from_secs_f32(c.fetch_failure_backoff.maximum_delay_secs),
+            backoff_jitter: Duration::from_secs_f32(c.fetch_failure_backoff.jitter_secs),
+            issue_cache_size: c.issue_cache_size,
+            issue_deduplication_window: c.issue_deduplication_window,
+            path_swap_score_threshold: c.path_swap_score_threshold,
+        }
+    }
+
+    /// Sets the configuration fields that have no public builder method.
+    pub fn config_with(
+        mut c: MultiPathManagerConfig,
+        issue_cache_size: usize,
+        issue_broadcast_size: usize,
+        backoff_min_max_factor_jitter: (f32, f32, f32, f32),
+    ) -> MultiPathManagerConfig {
+        c.issue_cache_size = issue_cache_size;
+        c.issue_broadcast_size = issue_broadcast_size;
+        c.fetch_failure_backoff.minimum_delay_secs = backoff_min_max_factor_jitter.0;
+        c.fetch_failure_backoff.maximum_delay_secs = backoff_min_max_factor_jitter.1;
+        c.fetch_failure_backoff.factor = backoff_min_max_factor_jitter.2;
+        c.fetch_failure_backoff.jitter_secs = backoff_min_max_factor_jitter.3;
+        c
+    }
+
+    /// A [`MultiPathManager`] with exactly one path set whose maintenance is driven by the
+    /// caller: no background task, every step takes the current time as an argument.
+    pub struct ManualPathSet<F: PathFetcher> {
+        mgr: MultiPathManager<F>,
+        set: PathSet<F>,
+    }
+
+    impl<F: PathFetcher> ManualPathSet<F> {
+        /// Creates the manager (default scorers, the given policies) and an unmanaged path set
+        /// for `(src, dst)` registered in the manager's index, so that
+        /// [`MultiPathManager::cached_path`] and [`MultiPathManager::path`] read its state.
+        ///
+        /// Must be called inside a tokio runtime.
+        pub fn new(
+            now: SystemTime,
+            src: IsdAsn,
+            dst: IsdAsn,
+            fetcher: F,
+            config: MultiPathManagerConfig,
+            policies: Vec<Arc<dyn PathPolicy>>,
+        ) -> Result<Self, MultiPathManagerConfigError> {
+            config.validate()?;
+            let mut path_strategy = PathStrategy::default();
+            path_strategy.scoring.use_default_scorers();
+            path_strategy.policies = policies;
+            let mgr = MultiPathManager(Arc::new(MultiPathManagerInner {
+                config,
+                fetcher,
+                path_strategy,
+                issue_manager: Mutex::new(PathIssueManager::new(
+                    config.issue_cache_size,
+                    config.issue_broadcast_size,
+                    config.issue_deduplication_window,
+                )),
+                managed_paths: HashIndex::new(),
+            }));
+            let issue_rx = mgr.0.issue_manager.lock().unwrap().issues_subscriber();
+            let set = PathSet::new_with_time(src, dst, mgr.weak_ref(), config, issue_rx, now);
+            let cancel_token = tokio_util::sync::CancellationToken::new();
+            let task = {
+                let cancel_token = cancel_token.clone();
+                tokio::spawn(async move { cancel_token.cancelled().await })
+            };
+            let _ = mgr.0.managed_paths.insert_sync(
+                (src, dst),
+                (
+                    PathSetHandle {
+                        shared: set.shared.clone(),
+                    },
+                    PathSetTask { task, cancel_token },
+                ),
+            );
+            Ok(Self { mgr, set })
+        }
+
+        /// The manager owning the path set.
+        pub fn manager(&self) -> &MultiPathManager<F> {
+            &self.mgr
+        }
+
+        /// Time until the background task would run its next maintenance.
+        pub fn next_maintain(&self, now: SystemTime) -> Duration {
+            self.set.next_maintain(now)
+        }
+
+        /// Instant of the next scheduled path lookup.
+        pub fn next_refetch(&self) -> SystemTime {
+            self.set.internal.next_refetch
+        }
+
+        /// Runs one maintenance step, as the background task does when its timer fires.
+        pub async fn maintain(&mut self, now: SystemTime) -> Option<&'static str> {
+            let mgr = self.mgr.clone();
+            self.set.maintain(now, &mgr).await
+        }
+
+        /// Reports an SCMP error with an explicit timestamp.
+        pub fn report_scmp_error(&self, now: SystemTime, error: ScmpErrorMessage) {
+            self.mgr.report_path_issue(now, IssueKind::Scmp { error });
+        }
+
+        /// Reports an unreachable first hop with an explicit timestamp.
+        pub fn report_first_hop_unreachable(&self, now: SystemTime, isd_asn: IsdAsn, interface_id: u16) {
+            self.mgr.report_path_issue(
+                now,
+                IssueKind::Socket {
+                    err: SendError::FirstHopUnreachable {
+                        isd_asn,
+                        interface_id,
+                        address: None,
+                        msg: "verif".into(),
+                    },
+                },
+            );
+        }
+
+        /// Handles broadcast issues the way the background task does when its channel wakes it.
+        /// Returns the number of wake-ups handled.
+        pub fn handle_pending_issues(&mut self, now: SystemTime) -> usize {
+            let mgr = self.mgr.clone();
+            let mut handled = 0;
+            loop {
+                let recv = match self.set.internal.issue_rx.try_recv() {
+                    Ok(v) => Ok(v),
+                    Err(TryRecvError::Lagged(n)) => {
+                        Err(tokio::sync::broadcast::error::RecvError::Lagged(n))
+                    }
+                    Err(TryRecvError::Empty | TryRecvError::Closed) => return handled,
+                };
+                handled += 1;
+                if self.set.handle_issue_rx(now, recv, &mgr).is_some() {
+                    return handled;
+                }
+            }
+        }
+
+        /// The path currently published to senders.
+        pub fn active_path(&self) -> Option<ScionPath> {
+            self.set
+                .shared
+                .active_path
+                .load()
+                .as_ref()
+                .map(|p| p.0.clone())
+        }
+
+        /// The cached candidates in ranking order with their current scores.
+        pub fn cached_paths(&self, now: SystemTime) -> Vec<CachedPathInfo> {
+            let scoring = &self.mgr.0.path_strategy.scoring;
+            self.set
+                .internal
+                .cached_paths
+                .iter()
+                .map(|e| {
+                    CachedPathInfo {
+                        path: e.path.clone(),
+                        score: scoring.score(e, now),
+                        reliability: e.reliability.score(now).value(),
+                    }
+                })
+                .collect()
+        }
+
+        /// Number of consecutive failed lookups.
+        pub fn failed_attempts(&self) -> u32 {
+            self.set.internal.failed_attempts
+        }
+
+        /// `(cached issues, queued issue ids, configured maximum)` of the issue memory.
+        pub fn issue_memory(&self) -> (usize, usize, usize) {
+            let guard = self.mgr.0.issue_manager.lock().unwrap();
+            (guard.cache.len(), guard.fifo_issues.len(), guard.max_entries)
+        }
+
+        /// The error of the last lookup, if it failed.
+        pub fn current_error(&self) -> Option<String> {
+            self.set
+                .shared
+                .sync
+                .lock()
+                .unwrap()
+                .current_error
+                .as_ref()
+                .map(|e| e.to_string())
+        }
+    }
+}
+
 #[cfg(test)]
 mod tests {
     use helpers::*;
